@@ -632,7 +632,7 @@ class PathCond:
             self._back = back
         return self._back
 
-    def conditions(self, target, relevant=None, cap=512):
+    def conditions(self, target, relevant=None, cap=512, keep_phi=False):
         """Projected DNF of the path condition of block `target`: a set of frozensets of atoms
         (expr, value).  `relevant(expr, value)` filters atoms; None keeps all (may be large)."""
         back = self.back_edges()
@@ -733,14 +733,14 @@ class PathCond:
                                     weaker = weaker + others
                             acc.add((cs - frozenset(weaker)) | {a})
             # forget phi values that no later switch reads
-            if phi["locals"]:
+            if phi["locals"] and not keep_phi:
                 acc = {frozenset(at for at in cs if at[0][0] != "phi" or x in phi["live"].get(at[0][1], ())) for cs in acc}
             acc = _absorb(acc)
             if len(acc) > cap:
                 raise RuntimeError("path condition too large for bb%d in %s" % (x, self.b.key))
             memo[x] = acc
         res = memo.get(target, set())
-        if phi["locals"]:
+        if phi["locals"] and not keep_phi:
             res = _absorb({frozenset(at for at in cs if at[0][0] != "phi") for cs in res})
         return res
 
